@@ -901,6 +901,22 @@ def r5(ctx):
         order_insensitive = ("sorted(self.factors)" in t or "frozenset(" in t or "sorted(" in t) and "factor" in t
         ctx.check(order_insensitive and "reverse" not in t, "C01.R5", "the identity key is order-insensitive in the factors (a:b = b:a)", init.where,
                   ctx.construct(init, text=f"self.{key}"), f"self.{key} = `{t}` is not built from sorted/frozenset factor expressions")
+        # ... and structure preserving: a collection with one element per factor, not a joined string (a factor named `a:b` is not a:b)
+        kv0 = strip_casts(kv) if kv is not None else None
+        structured = isinstance(kv0, ast.Call) and dotted(kv0.func) in ("tuple", "frozenset") and not any(
+            isinstance(c, ast.Call) and isinstance(c.func, ast.Attribute) and c.func.attr == "join" for c in ast.walk(kv0))
+        ctx.check(structured, "C01.R5", "the identity key keeps one element per factor (no joined string)", init.where,
+                  ctx.construct(init, text=f"self.{key} structure"),
+                  f"self.{key} = `{t}` flattens the factors into one string: a quoted factor whose name contains the separator (`a:b`) becomes "
+                  f"identical to the interaction a:b")
+        # the str comparison must use the same structured key
+        sbr = [b for b in ast.walk(eq.node) if isinstance(b, ast.If) and norm(b.test) == "isinstance(other, str)"]
+        if sbr:
+            r_ = [x for x in sbr[0].body if isinstance(x, ast.Return)]
+            ok_s = bool(r_) and isinstance(r_[0].value, ast.Compare) and norm(r_[0].value.left) == f"self.{key}" and "FACTOR_MATCHER" in norm(r_[0].value.comparators[0]) \
+                and norm(r_[0].value.comparators[0]).startswith(("tuple(sorted(", "frozenset("))
+            ctx.check(ok_s, "C01.R5", "Term == str parses the string into factor names and compares the same key", eq.where, ctx.construct(eq, text="Term==str"),
+                      f"str branch returns `{norm(r_[0].value)[:120] if r_ else None}`")
         # hash derives from the key only
         hret = returns_of(hs.node)
         hexpr = hret[0].value if hret else None
